@@ -283,6 +283,9 @@ class XMLResourceLoader:
                 raise
             # An unknown encoding in the XML declaration
             raise XMLResourceParseError("invalid XML encoding: {}".format(err)) from err
+        except UnicodeDecodeError as err:
+            # A text-mode file object that can't decode its bytes
+            raise XMLResourceParseError("invalid XML data: {}".format(err)) from err
         finally:
             self._lazy_lock.release()
 
@@ -339,6 +342,9 @@ class XMLResourceLoader:
                 raise
             # An unknown encoding in the XML declaration
             raise XMLResourceParseError("invalid XML encoding: {}".format(err)) from err
+        except UnicodeDecodeError as err:
+            # A text-mode file object that can't decode its bytes
+            raise XMLResourceParseError("invalid XML data: {}".format(err)) from err
 
     def _clear(self, elem: ElementType,
                ancestors: Optional[list[ElementType]] = None) -> None:
